@@ -429,8 +429,8 @@ class PNest(Component):
 
 
 PB_PALETTE = {"PComb": PComb, "PReg": PReg, "PMix": PMix, "PNest": PNest}
-PB_POSITIONS = ["c", "l[0]", "l[1]", "m", "m.g", "h.g"]
-PB_K = {"c": 1, "l[0]": 2, "l[1]": 4, "m.g": 9, "h.g": 6}
+PB_POSITIONS = ["c", "l[0]", "l[1]", "m", "m.g", "h.g", "h.e[1]"]
+PB_K = {"c": 1, "l[0]": 2, "l[1]": 4, "m.g": 9, "h.g": 6, "h.e[1]": 3}
 
 
 class PBMid(Component):
@@ -498,11 +498,23 @@ PB_HOSTS = {"PBMid": PBMid, "PBMidB": PBMidB}
 
 class PBFix(Component):
     """fixed (not replaceable) host of the position h.g, whose port a block of the TOP reads"""
-    def construct(s, G):
+    def construct(s, G, E=None):
         s.in_ = InPort(Bits8)
         s.o = OutPort(Bits8)
         s.g = G(PB_K["h.g"])
         s.st = Wire(Pair)
+        # a LIST of children below a component that is not the top: element 1 is the position h.e[1]
+        E = E or G
+        s.oe = OutPort(Bits8)
+        s.e = [PB_PALETTE[sorted(PB_PALETTE)[0]](5), E(PB_K["h.e[1]"])]
+        for x in s.e:
+            x.iu //= s.in_
+            x.if_ //= s.in_
+            x.il //= s.in_
+            x.ifn //= 1
+            x.io //= s.in_
+            x.ist //= s.st
+        s.oe //= s.e[1].o
         s.g.iu //= s.in_
         s.g.if_ //= s.in_
         s.g.il //= s.in_
@@ -537,7 +549,7 @@ class PBTop(Component):
         s.c = P[cfg["c"]](K["c"])
         s.l = [P[cfg["l[%d]" % i]](K["l[%d]" % i]) for i in range(2)]
         s.m = PB_HOSTS[cfg["m"]](P[cfg["m.g"]])
-        s.h = PBFix(P[cfg["h.g"]])
+        s.h = PBFix(P[cfg["h.g"]], P[cfg["h.e[1]"]])
 
         # ---- plain child c: every kind of block writes one of its in-ports ...
         @update
